@@ -107,7 +107,11 @@ def h_calls() -> dict[str, Any]:
     r1 = pt.trace_call(f, x, y)
     r2 = pt.trace_call(f, y, z)
     r3 = pt.trace_call(g, r1)
-    return {"c1": r1 + r2, "c2": r3["twice"] - r3["sq"], "c3": pt.trace_call(f, r2, r1)}
+    def h(velocity: Any, rho: Any, energy: Any, gamma: Any) -> Any:
+        return velocity * rho + energy - gamma
+    r4 = pt.trace_call(h, velocity=x, rho=y, energy=z, gamma=r1)
+    return {"c1": r1 + r2, "c2": r3["twice"] - r3["sq"], "c3": pt.trace_call(f, r2, r1),
+            "c4": r4 * 2}
 
 
 def h_calls_stay() -> dict[str, Any]:
@@ -302,7 +306,10 @@ def kernel_text(t_unit: Any, bound: Any) -> str:
                 f"pred={sorted(str(p) for p in insn.predicates)} "
                 f"tags={sorted(str(t) for t in insn.tags)} "
                 f"groups={sorted(insn.groups)} nosync={sorted(map(str, insn.no_sync_with))}")
-        lines.append(f"  substitutions {sorted(knl.substitutions)}")
+        for sn in sorted(knl.substitutions):
+            lines.append(f"  substitution {knl.substitutions[sn]}")
+        lines.append(f"  target {type(knl.target).__name__} options "
+                     f"{sorted((k, str(v)) for k, v in vars(knl.options).items() if not k.startswith('_'))}")
         assert isinstance(knl, lp.LoopKernel)
     lines.append(f"bound_arguments {sorted(bound)}")
     for nm in sorted(bound):
@@ -444,6 +451,61 @@ def tag_map(sym: Any, num: Any, next_tag: Any) -> str:
     return "\n".join(lines) + "\n"
 
 
+def denotes(part: Any) -> str:
+    """What every generated / user name of the partition DENOTES: name ->
+    digest of the canonical form of the array, its class and the inputs it is
+    computed from (placeholder names, data digests, receives)."""
+    from pytato.array import DataWrapper, Placeholder
+    from pytato.distributed.nodes import DistributedRecv
+
+    from .eqexport import FamilyExporter, reachable_entities
+    lines = []
+    for nm in sorted(part.name_to_output):
+        a = part.name_to_output[nm]
+        ex = FamilyExporter(sorted_maps=True)
+        root = ex.val(a, "name_to_output")
+        dig = hashlib.sha256(json.dumps([root, ex.nodes], sort_keys=True).encode()
+                             ).hexdigest()[:16]
+        leaves = []
+        for e in reachable_entities(a):
+            if isinstance(e, Placeholder):
+                leaves.append(f"ph:{e.name}")
+            elif isinstance(e, DataWrapper):
+                leaves.append("dw:" + hashlib.sha256(
+                    np.ascontiguousarray(e.data).tobytes()).hexdigest()[:8])
+            elif isinstance(e, DistributedRecv):
+                leaves.append(f"recv:{e.src_rank}:{canon_tag(e.comm_tag)}")
+        lines.append(f"denotes {nm} = {dig} {type(a).__name__} from {sorted(set(leaves))}")
+    return "\n".join(lines) + "\n"
+
+
+def part_code(pl: Any) -> dict[str, str]:
+    """pytato's own generate_code_for_partition for every rank (harness C
+    target, see distcheck.generate_part_code): per part the canonical kernel
+    text with the bound arguments (name -> digest of the data object) and the
+    C source."""
+    import loopy as lp
+
+    from . import distcheck
+    prgs, errs = distcheck.generate_part_code(pl)
+    out = {}
+    bad = {e["rank"]: e for e in errs}
+    for r, pr in enumerate(prgs):
+        if pr is None:
+            out[f"partcode@{r}"] = f"raised {bad[r]['exc']}: {bad[r]['msg']}\n"
+            continue
+        chunks = []
+        for pid in sorted(pr, key=str):
+            bp = pr[pid]
+            chunks.append(f"== part {pid}\n" + kernel_text(bp.program, bp.bound_arguments))
+            try:
+                chunks.append(lp.generate_code_v2(bp.program).device_code())
+            except Exception as ex:      # noqa: BLE001
+                chunks.append(f"raised {type(ex).__name__}: {str(ex)[:200]}\n")
+        out[f"partcode@{r}"] = "\n".join(chunks) + "\n"
+    return out
+
+
 def emit_dist(p: dict) -> dict[str, str]:
     from . import distharness
     pl = distharness.run_pipeline(p["prog"], seed=0)
@@ -455,13 +517,89 @@ def emit_dist(p: dict) -> dict[str, str]:
             out[f"part@{r}"] = txt
             out[f"tags@{r}"] = txt
         return out
+    if p.get("partcode") and all(x is not None for x in pl.num):
+        out.update(part_code(pl))
     for r in range(n):
-        out[f"part@{r}"] = part_summary(pl.sym[r]) + canon_struct(pl.sym[r])
+        out[f"part@{r}"] = part_summary(pl.sym[r]) + denotes(pl.sym[r]) \
+            + canon_struct(pl.sym[r])
         if pl.num[r] is not None:
             out[f"tags@{r}"] = tag_map(pl.sym[r], pl.num[r], pl.next_tag[r])
         else:
             out[f"tags@{r}"] = "not numbered: " + pl.summary()[r] + "\n"
     return out
+
+
+# --------------------------------------------------------------------------
+# hand-written multi-rank programs (ptverif.distharness program format): parts
+# with several outputs over several unnamed data wrappers; several inputs used
+# both in what is sent and in what is computed after the reply
+
+def dist_hand() -> list[dict]:
+    def prog(pid: str, ranks: list[dict]) -> dict:
+        return {"id": pid, "nranks": len(ranks), "tagkind": "str", "ranks": ranks,
+                "features": {}}
+    progs = []
+    # 1 rank, one part, five outputs, each over its own unnamed data wrapper
+    nodes: list[dict] = [{"k": "in", "name": "x"}]
+    outs = []
+    for k, nm in enumerate(["lift", "mass", "drag", "flux", "work"]):
+        nodes.append({"k": "dw", "vals": [11 * (k + 1), 7 * k + 3]})
+        nodes.append({"k": "op", "args": [0, len(nodes) - 1]})
+        outs.append([f"out_{nm}", len(nodes) - 1])
+    progs.append(prog("hand/dist_outs_over_dws", [{"nodes": nodes, "outs": outs}]))
+    # rank 0 sends four arrays, each computed from its own data wrapper, in one part
+    nodes = [{"k": "in", "name": "x"}]
+    sent = []
+    for k in range(4):
+        nodes.append({"k": "dw", "vals": [5 * k + 2, 3 * k + 9]})
+        nodes.append({"k": "op", "args": [0, len(nodes) - 1]})
+        sent.append(len(nodes) - 1)
+    nodes.append({"k": "dw", "vals": [101, 103]})
+    nodes.append({"k": "op", "args": [0, len(nodes) - 1]})
+    h = len(nodes) - 1
+    for k, sidx in enumerate(sent):
+        nodes.append({"k": "hold", "data": sidx, "dst": 1, "tag": k + 1, "pass": h})
+        h = len(nodes) - 1
+    r0 = {"nodes": nodes, "outs": [["out", h]]}
+    n1: list[dict] = [{"k": "in", "name": "y"}]
+    rv = []
+    for k in (3, 1, 4, 2):
+        n1.append({"k": "recv", "src": 0, "tag": k, "v": 0})
+        rv.append(len(n1) - 1)
+    n1.append({"k": "op", "args": [0, *rv]})
+    progs.append(prog("hand/dist_sends_over_dws", [r0, {"nodes": n1, "outs": [["out", len(n1) - 1]]}]))
+    # several inputs (4 placeholders + 1 data wrapper) used in the sent data AND after
+    # the reply: the output of the second part has five materialised predecessors
+    # in the first part
+    for variant in ("out", "send"):
+        nodes = [{"k": "in", "name": nm} for nm in ("u", "v", "t", "s")]
+        nodes.append({"k": "dw", "vals": [13, 17]})
+        ins = list(range(5))
+        nodes.append({"k": "op", "args": ins})
+        data = len(nodes) - 1
+        nodes.append({"k": "recv", "src": 1, "tag": 2, "v": 0})
+        halo = len(nodes) - 1
+        nodes.append({"k": "op", "args": [halo, *ins]})
+        after = len(nodes) - 1
+        nodes.append({"k": "hold", "data": data, "dst": 1, "tag": 1, "pass": after})
+        o = len(nodes) - 1
+        n1 = [{"k": "in", "name": "y"}, {"k": "recv", "src": 0, "tag": 1, "v": 0}]
+        n1.append({"k": "op", "args": [1, 0]})
+        n1.append({"k": "op", "args": [0, 1]})
+        n1.append({"k": "hold", "data": 2, "dst": 0, "tag": 2, "pass": 3})
+        o1 = len(n1) - 1
+        if variant == "send":
+            # the stored array with many predecessors is itself SENT in a later part
+            nodes.append({"k": "op", "args": [halo, 3, 1, 4, 0, 2]})
+            nodes.append({"k": "hold", "data": len(nodes) - 1, "dst": 1, "tag": 3, "pass": o})
+            o = len(nodes) - 1
+            n1.append({"k": "recv", "src": 0, "tag": 3, "v": 0})
+            n1.append({"k": "op", "args": [o1, len(n1) - 1]})
+            o1 = len(n1) - 1
+        progs.append(prog(f"hand/dist_inputs_both_sides_{variant}",
+                          [{"nodes": nodes, "outs": [["out", o]]},
+                           {"nodes": n1, "outs": [["out", o1]]}]))
+    return progs
 
 
 # --------------------------------------------------------------------------
